@@ -329,6 +329,27 @@ def cases(rng, tier, stats):
                 out.append(C.Case("stem-siblings", lines, default_compare, lambda case, impl, model: [], info={"src": src[-300:], "sibling": sib, "kind": kind, "run_index": 1, "expected": []}))
                 nsb += 1
     stats["stem_siblings"] = nsb
+    # one file under two spellings of its path (`x`, `./x`, `sub/../x`, `//x`): read through A, overwrite / delete through B, read
+    # through A again — a file is the thing on disk, not the text of its path (nothing may remember contents by spelling)
+    nsp = 0
+    for ai, bi in [(0, 1), (0, 2), (0, 3), (1, 0), (2, 0), (2, 1), (3, 2), (0, 0)]:
+        for second in ("write", "delete", "rmdir-parent"):
+            d = f"@ROOT@/sp{nsp}"
+            sp = [f"{d}/x.txt", f"{d}/./x.txt", f"{d}/sub/../x.txt", f"{d}//x.txt"]
+            A, B = sp[ai], sp[bi]
+            body = [("expr", G.call(FN["mkdir"], G.s(d))), ("expr", G.call(FN["mkdir"], G.s(f"{d}/sub"))),
+                    ("expr", G.call(FN["write"], G.s(A), G.s("এক"))), ("print", G.call(FN["read"], G.s(A))), ("print", G.call(FN["read"], G.s(A)))]
+            if second == "write":
+                body += [("expr", G.call(FN["write"], G.s(B), G.s("দুই"))), ("print", G.call(FN["read"], G.s(A))), ("print", G.call(FN["read"], G.s(B)))]
+            elif second == "delete":
+                body += [("expr", G.call(FN["delete"], G.s(B))), ("print", G.s("মুছে ফেলার পরে")), ("print", G.call(FN["read"], G.s(A))), ("print", G.s("পৌঁছানো উচিত না"))]
+            else:
+                body += [("expr", G.call(FN["rmdir"], G.s(d))), ("print", G.s("মুছে ফেলার পরে")), ("print", G.call(FN["read"], G.s(A))), ("print", G.s("পৌঁছানো উচিত না"))]
+            src = G.source(body + [("print", G.s("শেষ"))], "lines")
+            out.append(C.Case("path-spellings", ["RESET", run_req(src, fs=1)], default_compare, lambda case, impl, model: [],
+                              info={"src": src[-300:], "A": A, "B": B, "second": second, "run_index": 1, "expected": []}))
+            nsp += 1
+    stats["path_spellings"] = nsp
     # wrong argument shapes, systematically: every argument tuple of length 0..3 over {path of a file, path of a directory,
     # path below a missing directory, number, list} for the seven file-system built-ins, on a fixed small tree
     import itertools
